@@ -5,7 +5,8 @@
 From Coq Require Import List NArith ZArith QArith Qcanon Bool Lia Sorted.
 From ACB Require Import Base.Outcome Base.QcExtra Base.Fit Base.Arith Model.Tx Model.Ledger Model.Sfl
      Model.DeltaList Spec.AvgCost Spec.SflRule Spec.Possible Proofs.Tactics Proofs.C01Refine
-     Proofs.C04Inv Proofs.C04Sum Proofs.C02Scan Proofs.C05Sites Proofs.C04Reject Proofs.C04Ahead.
+     Proofs.C04Inv Proofs.C04Sum Proofs.C02Scan Proofs.C05Sites Proofs.C04Reject Proofs.C04Ahead
+     Proofs.C05NoPanic.
 Import ListNotations.
 Local Open Scope Qc_scope.
 
@@ -703,3 +704,481 @@ Proof.
         -- eapply Forall_impl; [|eapply judge_adj; exact Ej]. intros a (Ha & _). exact Ha.
       * exists cl. split; [exact Ho|]. split; [lia|]. intros Hc. apply Hcl. lia.
 Qed.
+
+(* ---- one input row: the ledger against the verdict of the walk ---- *)
+Definition ahead_witness (hs : holdings) (t : tx) (aft : list tx) : Prop :=
+  is_sell (t_act t) = true /\
+  exists w1 x w2 n p c rr cr sp, aft = w1 ++ x :: w2 /\ t_act x = Sell n p c rr cr sp /\
+    (t_sd x <= t_sd t + 30)%Z /\
+    shares_after (af_id (t_af x)) (fst (held hs (t_af x))) (t :: w1) < n.
+
+Section Step.
+  Variable regof : N -> bool.
+  Hypothesis regof_default : regof default_id = false.
+
+  Lemma step_sim bef t aft st :
+    st_inv regof st -> keys_nodup st -> af_ok regof (t_af t) -> valid_tx t = true ->
+    sd_sorted aft -> sd_sorted_desc bef -> Forall split_pos aft ->
+    match delta_for_tx exact bef t aft st with
+    | Ok (d, inj) => judge (abs_map (ps_map st)) bef t aft = Goes (denied_of d) inj
+    | Rej r =>
+        (exists c, class_of r = Some c /\ judge (abs_map (ps_map st)) bef t aft = Offends c)
+        \/ (is_ahead r /\ ahead_witness (abs_map (ps_map st)) t aft)
+    | Panic _ => True
+    end.
+  Proof.
+    intros Hinv Hk Haf Hv Hsa Hsb Hpos. unfold delta_for_tx.
+    rewrite (sanity_never_rejects regof st (t_af t) Hinv Haf). cbn [bind].
+    destruct (last_sh_le_all regof st (t_af t) Hinv) as [Hle Hnn].
+    unfold judge. rewrite held_next_pre. unfold hold_of. cbn [fst snd].
+    set (pre := next_pre_status st (t_af t)).
+    assert (Hpsh : s_sh pre = last_sh st (t_af t)) by apply next_pre_sh.
+    assert (Hpall : s_all pre = ps_all st) by apply next_pre_all.
+    unfold valid_tx in Hv.
+    destruct (t_act t) as [n price com rate crate | n price com rate crate sp | amount rate
+                          | n amount | post pre_ io] eqn:Ea.
+    - (* Buy *)
+      destruct (delta_nonsell exact t pre) as [d0|r0|p0] eqn:Ed; cbn [bind]; [| exfalso | exact I].
+      + apply nonsell_refines in Ed as (_ & Hsfl & _); [|rewrite Ea; reflexivity].
+        unfold denied_of. rewrite Hsfl. reflexivity.
+      + unfold delta_nonsell in Ed. rewrite Ea in Ed.
+        bnr Ed. bnr Ed. destruct (s_acb _); cbn [bind] in Ed; [|discriminate Ed].
+        bnr Ed. bnr Ed. bnr Ed. bnr Ed. discriminate Ed.
+    - (* Sell *)
+      cbn [valid_action] in Hv. vsplit Hv. apply Qcltb_true in Hv.
+      destruct (sell_core exact pre n price com rate crate) as [c| r0 |p0] eqn:Ec; cbn [bind]; [| | exact I].
+      + pose proof (sell_core_exact _ _ _ _ _ _ _ Ec Hv) as (Hsh & Hacb & Hg).
+        assert (Hge : Qcltb (s_sh pre) n = false).
+        { unfold sell_core in Ec. cbn [a_sub exact bind] in Ec.
+          destruct (Qcltb_spec (s_sh pre - n) 0) as [|Hge]; [discriminate|].
+          apply Qcltb_false. apply Qcnot_lt_le in Hge. qc_lra. }
+        rewrite Hge, Hg. destruct (s_acb pre) as [acb|] eqn:Eacb; cbn [option_map]; [|reflexivity].
+        set (g := n * price * rate - com * crate - acb * n / s_sh pre).
+        destruct (Qcltb g 0) eqn:Eg.
+        * pose proof (delta_sfl_sim regof bef t n sp aft st g Hinv Hsa Hsb Hpos) as Hsim.
+          destruct (delta_sfl exact bef t n sp aft st g) as [m| r0 |p0] eqn:Es; cbn [bind]; [| | exact I].
+          -- destruct m as [[info inj]|]; cbn [a_sub exact bind]; unfold denied_of; cbn [d_sfl mk_delta]; exact Hsim.
+          -- destruct Hsim as [[-> Hj] | Hinfo].
+             ++ left. exists SflMismatch. split; [reflexivity | exact Hj].
+             ++ right. pose proof (sfl_info_rej regof _ _ _ _ _ _ _ _ _ _ _ _ Hinv Ec eq_refl Hinfo) as Hl.
+                apply (sfl_info_rej_witness regof) in Hinfo; [|assumption|assumption|assumption].
+                destruct Hinfo as [-> | [-> | [Hah Hw]]]; [contradiction Hl | contradiction Hl |].
+                split; [exact Hah|]. split; [rewrite Ea; reflexivity|].
+                destruct Hw as (w1 & x & w2 & n' & p' & c' & rr & cr & sp' & Ew & Eax & Hsd & Hlt).
+                exists w1, x, w2, n', p', c', rr, cr, sp'. repeat split; try assumption.
+                unfold shares_after in *. cbn [fold_left]. rewrite held_shares.
+                unfold shares_after_sale in Hlt. fold (last_sh st (t_af x)) in Hlt.
+                unfold step_shares at 2. rewrite Ea. rewrite (N.eqb_sym (af_id (t_af t))).
+                destruct (N.eqb (af_id (t_af x)) (af_id (t_af t))); [exact Hlt|].
+                replace (last_sh st (t_af x) - 0) with (last_sh st (t_af x)) in Hlt by ring. exact Hlt.
+        * destruct sp as [s0|].
+          -- left. exists SflNoLoss. split; reflexivity.
+          -- reflexivity.
+      + (* sell_core rejects: the sale exceeds the affiliate's shares *)
+        unfold sell_core in Ec. cbn [a_sub exact bind] in Ec.
+        destruct (Qcltb_spec (s_sh pre - n) 0) as [Hlt|Hsh].
+        * inversion Ec; subst r0. left. exists OverSale. split; [reflexivity|].
+          assert (Hlt' : Qcltb (s_sh pre) n = true) by (apply Qcltb_true; qc_lra).
+          rewrite Hlt'. reflexivity.
+        * exfalso. destruct (Qcltb_spec (s_all pre - n) 0) as [Hlt|_].
+          { apply Qcnot_lt_le in Hsh. rewrite Hpsh in Hsh. rewrite Hpall in Hlt. qc_lra. }
+          bnr Ec. destruct a as [aps_|]; [|discriminate Ec].
+          bnr Ec. bnr Ec. bnr Ec. cbn [a_sub a_mul exact bind] in Ec. discriminate Ec.
+    - (* RoC *)
+      unfold delta_nonsell. rewrite Ea.
+      pose proof (next_pre_acb regof st (t_af t) Hinv Haf) as Hacb. fold pre in Hacb.
+      destruct (s_acb pre) as [old|] eqn:Eo; cbn [is_none] in Hacb.
+      + rewrite <- Hacb. cbn [bind].
+        destruct (gez_mul exact amount (s_sh pre)) as [v| r0 |p0] eqn:E1; cbn [bind]; [| nrx E1 | exact I].
+        apply gez_mul_exact in E1 as [-> _].
+        destruct (gez_mul exact (amount * s_sh pre) rate) as [red| r0 |p0] eqn:E2; cbn [bind]; [| nrx E2 | exact I].
+        apply gez_mul_exact in E2 as [-> _]. cbn [a_sub exact bind].
+        destruct (Qcltb (old - amount * s_sh pre * rate) 0); cbn [bind].
+        * left. exists RocExceeds. split; reflexivity.
+        * unfold denied_of. cbn. reflexivity.
+      + rewrite <- Hacb. cbn [negb bind]. left. exists RocRegistered. split; reflexivity.
+    - (* SfLA *)
+      unfold delta_nonsell. rewrite Ea.
+      pose proof (next_pre_acb regof st (t_af t) Hinv Haf) as Hacb. fold pre in Hacb.
+      destruct (s_acb pre) as [old|] eqn:Eo; cbn [is_none] in Hacb.
+      + rewrite <- Hacb. cbn [bind a_mul exact].
+        destruct (pos_unwrap Site.sfla_total (n * amount)) as [amt| r0 |p0] eqn:E1; cbn [bind]; [| nrx E1 | exact I].
+        destruct (gez_add exact old amt) as [nacb| r0 |p0] eqn:E2; cbn [bind]; [| nrx E2 | exact I].
+        unfold denied_of. cbn. reflexivity.
+      + rewrite <- Hacb. cbn [negb bind]. left. exists SflaRegistered. split; reflexivity.
+    - (* Split *)
+      unfold delta_nonsell. rewrite Ea. cbn [a_mul a_div exact].
+      destruct (Qceqb pre_ 0); cbn [bind]; [exact I|].
+      unfold gez_unwrap. destruct (Qcleb 0 (s_sh pre * post / pre_)) eqn:Eq; cbn [bind]; [|exact I].
+      cbn [a_sub a_add exact bind].
+      destruct (Qcltb_spec (s_all pre + (s_sh pre * post / pre_ - s_sh pre)) 0) as [Hlt|_].
+      { exfalso. apply Qcleb_true in Eq. rewrite Hpall, Hpsh in Hlt. rewrite Hpsh in Eq. qc_lra. }
+      destruct (Qcltb post pre_ && io && negb (Qc_is_integer (s_sh pre * post / pre_))); cbn [bind].
+      + left. exists RevSplitFraction. split; reflexivity.
+      + unfold denied_of. cbn. reflexivity.
+  Qed.
+End Step.
+
+(* ---- bookkeeping: keys of the status map, sortedness of the zipper ---- *)
+Lemma aupdate_keys_in {V} k (v : V) l x :
+  In x (map fst (aupdate k v l)) -> x = k \/ In x (map fst l).
+Proof.
+  induction l as [|[k' v'] l IH]; cbn [aupdate map fst In].
+  - intros [<-|[]]. left; reflexivity.
+  - destruct (N.eqb_spec k k') as [->|ne]; cbn [map fst In].
+    + intros [<-|H]; [left; reflexivity | right; right; exact H].
+    + intros [<-|H]; [right; left; reflexivity|]. destruct (IH H) as [->|H']; [left; reflexivity | right; right; exact H'].
+Qed.
+Lemma aupdate_keys_nodup {V} k (v : V) l : NoDup (map fst l) -> NoDup (map fst (aupdate k v l)).
+Proof.
+  induction l as [|[k' v'] l IH]; cbn [aupdate map fst]; intros H.
+  - constructor; [intros [] | constructor].
+  - apply NoDup_cons_iff in H as [Hk H]. destruct (N.eqb_spec k k') as [->|ne]; cbn [map fst].
+    + constructor; assumption.
+    + constructor; [|apply IH; exact H]. intros Hin. apply aupdate_keys_in in Hin as [->|Hin]; [apply ne; reflexivity | contradiction].
+Qed.
+
+Lemma desc_cons t bef :
+  sd_sorted_desc bef -> (forall b, In b bef -> (t_sd b <= t_sd t)%Z) -> sd_sorted_desc (t :: bef).
+Proof. intros Hs Hb. constructor; [exact Hs | apply Forall_forall; exact Hb]. Qed.
+Lemma desc_same_prefix l t bef :
+  Forall (fun a => t_sd a = t_sd t) l -> sd_sorted_desc (t :: bef) -> sd_sorted_desc (l ++ t :: bef).
+Proof.
+  intros Hl Hs. induction l as [|a l IH]; [exact Hs|].
+  apply Forall_cons_iff in Hl as [Ha Hl]. cbn [app]. constructor; [apply IH; exact Hl|].
+  apply Forall_app. split.
+  - eapply Forall_impl; [|exact Hl]. intros b Hb. cbv beta in Hb. rewrite Hb, Ha. lia.
+  - apply StronglySorted_inv in Hs as [_ Hs]. constructor; [rewrite Ha; lia|].
+    eapply Forall_impl; [|exact Hs]. intros b Hb. cbv beta in Hb. rewrite Ha. exact Hb.
+Qed.
+
+(* ---- a generated adjustment row never stops the ledger (except by a panic) ---- *)
+Section Whole.
+  Variable regof : N -> bool.
+  Hypothesis regof_default : regof default_id = false.
+
+  Lemma sfla_step bef a aft st :
+    st_inv regof st -> af_ok regof (t_af a) -> is_sfla (t_act a) = true -> af_reg (t_af a) = false ->
+    match delta_for_tx exact bef a aft st with
+    | Ok (d, inj) => inj = [] /\ denied_of d = 0
+    | Rej _ => False
+    | Panic _ => True
+    end.
+  Proof.
+    intros Hinv Haf Hs Hr. unfold delta_for_tx.
+    rewrite (sanity_never_rejects regof st (t_af a) Hinv Haf). cbn [bind].
+    pose proof (next_pre_acb regof st (t_af a) Hinv Haf) as Hacb.
+    destruct (t_act a) as [| | | n amount |] eqn:Ea; try discriminate Hs.
+    unfold delta_nonsell. rewrite Ea. rewrite Hr in *.
+    destruct (s_acb (next_pre_status st (t_af a))) as [old|]; [|discriminate Hacb].
+    cbn [bind a_mul exact].
+    destruct (pos_unwrap Site.sfla_total (n * amount)) as [amt| r0 |p0] eqn:E1; cbn [bind]; [| nrx E1 | exact I].
+    destruct (gez_add exact old amt) as [nacb| r0 |p0] eqn:E2; cbn [bind]; [| nrx E2 | exact I].
+    split; reflexivity.
+  Qed.
+
+  Lemma row_recorded bef t aft st d inj st1 :
+    delta_for_tx exact bef t aft st = Ok (d, inj) ->
+    set_latest exact st (t_af t) (d_post d) = Ok st1 ->
+    sell_positive t ->
+    abs_map (ps_map st1) = record (abs_map (ps_map st)) t (denied_of d).
+  Proof.
+    intros Ed Es Hpos. apply delta_for_tx_refines in Ed as [Htx Hrule]; [|assumption].
+    apply set_latest_map in Es. rewrite Es, <- aupdate_abs. unfold record.
+    rewrite held_next_pre, Hrule. reflexivity.
+  Qed.
+
+  Lemma set_latest_keys st af v st' :
+    set_latest exact st af v = Ok st' -> keys_nodup st -> keys_nodup st'.
+  Proof. intros H Hk. apply set_latest_map in H. unfold keys_nodup. rewrite H. apply aupdate_keys_nodup. exact Hk. Qed.
+
+  Lemma set_latest_no_rej st af v r : set_latest exact st af v <> Rej r.
+  Proof.
+    unfold set_latest. cbn [a_add a_sub exact bind].
+    destruct (negb _); [discriminate|]. destruct (negb _); discriminate.
+  Qed.
+
+  Lemma inj_sim t0 inj : forall bef st aft ds bef' st' o,
+    run_injected exact bef st inj aft = (ds, bef', st', o) ->
+    st_inv regof st -> keys_nodup st -> Forall (adj_row t0) inj -> Forall (row_ok' regof) inj ->
+    match o with
+    | None => bef' = rev inj ++ bef /\
+              abs_map (ps_map st') = record_all (abs_map (ps_map st)) inj /\
+              effective ds = map (fun a => (a, 0)) inj /\
+              st_inv regof st' /\ keys_nodup st'
+    | Some (SRej _) => False
+    | Some (SPanic _) => True
+    end.
+  Proof.
+    induction inj as [|a inj IH]; intros bef st aft ds bef' st' o H Hinv Hk Hadj Hrow; cbn [run_injected] in H.
+    - inversion H; subst. cbn. auto.
+    - apply Forall_cons_iff in Hadj as [(Ha1 & Ha2 & Ha3) Hadj]. apply Forall_cons_iff in Hrow as [Hra Hrow].
+      pose proof (sfla_step bef a (inj ++ aft) st Hinv Hra Ha1 Ha2) as Hstep.
+      destruct (delta_for_tx exact bef a (inj ++ aft) st) as [[d i]| r0 |p0] eqn:Ed.
+      + destruct Hstep as [-> Hdn].
+        pose proof (delta_for_tx_ok exact _ _ _ _ _ _ Ed (proj1 Hinv)) as [Htx (Hrowok & _)].
+        destruct (set_latest exact st (t_af a) (d_post d)) as [st1| r1 |p1] eqn:Es.
+        * pose proof (row_recorded _ _ _ _ _ _ _ Ed Es (sfla_sell_positive _ Ha1)) as Hrec.
+          assert (Hinv1 : st_inv regof st1) by (eapply set_latest_inv; eauto).
+          assert (Hk1 : keys_nodup st1) by (eapply set_latest_keys; eauto).
+          destruct (run_injected exact (a :: bef) st1 inj aft) as [[[ds1 b1] s1] o1] eqn:Er.
+          revert Htx. inversion H; subst; clear H. intros Htx.
+          specialize (IH _ _ _ _ _ _ _ Er Hinv1 Hk1 Hadj Hrow).
+          destruct o as [[r2|p2]|]; [exact IH | exact I |].
+          destruct IH as (I1 & I2 & I3 & I4 & I5).
+          split; [cbn [rev]; rewrite I1, <- app_assoc; reflexivity|].
+          split; [rewrite I2, Hrec, Hdn; reflexivity|].
+          split; [|split; assumption].
+          cbn [effective map]. fold (effective ds1). rewrite I3, Htx, Hdn. reflexivity.
+        * exfalso. eapply set_latest_no_rej; exact Es.
+        * inversion H; subst. exact I.
+      + contradiction.
+      + inversion H; subst. exact I.
+  Qed.
+
+  (* ---- whole runs ---- *)
+  Definition sim_inv (st : pstate) (bef aft : list tx) : Prop :=
+    st_inv regof st /\ keys_nodup st /\ sd_sorted aft /\ sd_sorted_desc bef /\
+    (forall b a, In b bef -> In a aft -> (t_sd b <= t_sd a)%Z) /\
+    Forall (fun t => valid_tx t = true) aft /\ Forall (row_ok' regof) aft /\ Forall (row_ok' regof) bef.
+
+  Definition agrees (aft : list tx) (gs : list (list (tx * Qc))) (off : option offence)
+             (ds : list delta) (o : option stop) : Prop :=
+    match off with
+    | None => o = None /\ effective ds = concat gs /\ length gs = length aft
+    | Some c =>
+        exists r, o = Some (SRej r) /\
+          ((class_of r = Some c /\ effective ds = concat gs) \/
+           (is_ahead r /\ exists i k ti tk,
+               nth_error aft i = Some ti /\ nth_error aft k = Some tk /\
+               (i <= length gs <= k)%nat /\ (i < k)%nat /\
+               is_sell (t_act ti) = true /\ is_sell (t_act tk) = true /\
+               (t_sd tk <= t_sd ti + 30)%Z /\
+               effective ds = concat (firstn i gs) /\
+               (length gs = k -> c = OverSale)))
+    end.
+
+  Lemma loop_sim aft : forall bef st ds o,
+    run_loop exact bef st aft = (ds, o) -> sim_inv st bef aft ->
+    (forall p, o <> Some (SPanic p)) ->
+    agrees aft (fst (walk (abs_map (ps_map st)) bef aft)) (snd (walk (abs_map (ps_map st)) bef aft)) ds o.
+  Proof.
+    induction aft as [|t rest IH]; intros bef st ds o H Hsim Hnp; cbn [run_loop] in H.
+    - inversion H; subst. cbn. auto.
+    - destruct Hsim as (Hinv & Hk & Hsa & Hsb & Hcross & Hval & Hrow & Hrowb).
+      apply Forall_cons_iff in Hval as [Hvt Hval]. apply Forall_cons_iff in Hrow as [Hrt Hrow].
+      pose proof Hsa as Hsa0. apply StronglySorted_inv in Hsa as [Hsa Hle].
+      assert (Hpos : Forall split_pos rest)
+        by (eapply Forall_impl; [|exact Hval]; intros x Hx; apply valid_split_pos; exact Hx).
+      pose proof (step_sim regof bef t rest st Hinv Hk Hrt Hvt Hsa Hsb Hpos) as Hstep.
+      destruct (delta_for_tx exact bef t rest st) as [[d inj]| r0 |p0] eqn:Ed.
+      + (* the row is accepted *)
+        cbn [walk]. rewrite Hstep.
+        pose proof (delta_for_tx_ok exact _ _ _ _ _ _ Ed (proj1 Hinv)) as [Htx (Hrowok & _)].
+        pose proof (delta_for_tx_inj_P (af_ok regof) exact _ _ _ _ _ _ Ed Hrowb Hrow) as Hinj.
+        pose proof (judge_adj _ _ _ _ _ _ Hstep) as Hadj.
+        destruct (set_latest exact st (t_af t) (d_post d)) as [st1| r1 |p1] eqn:Es;
+          [| exfalso; eapply set_latest_no_rej; exact Es | exfalso; inversion H; subst; eapply Hnp; reflexivity].
+        pose proof (row_recorded _ _ _ _ _ _ _ Ed Es (valid_sell_positive _ Hvt)) as Hrec.
+        assert (Hinv1 : st_inv regof st1) by (eapply set_latest_inv; eauto).
+        assert (Hk1 : keys_nodup st1) by (eapply set_latest_keys; eauto).
+        destruct (run_injected exact (t :: bef) st1 inj rest) as [[[dsi b1] st2] o1] eqn:Er.
+        pose proof (inj_sim t _ _ _ _ _ _ _ _ Er Hinv1 Hk1 Hadj Hinj) as Hi.
+        destruct o1 as [[r2|p2]|]; [contradiction | exfalso; inversion H; subst; eapply Hnp; reflexivity |].
+        destruct Hi as (I1 & I2 & I3 & I4 & I5).
+        destruct (run_loop exact b1 st2 rest) as [ds2 o2] eqn:El. inversion H; subst ds o; clear H.
+        assert (Hsim2 : sim_inv st2 b1 rest).
+        { split; [exact I4|]. split; [exact I5|]. split; [exact Hsa|]. rewrite I1.
+          assert (Hsame : Forall (fun a => t_sd a = t_sd t) (rev inj)).
+          { apply Forall_rev. eapply Forall_impl; [|exact Hadj]. intros a (_ & _ & Ha). exact Ha. }
+          split.
+          { apply desc_same_prefix; [exact Hsame|]. apply desc_cons; [exact Hsb|].
+            intros b Hb. apply Hcross; [exact Hb | left; reflexivity]. }
+          split.
+          { intros b a Hb Ha. rewrite Forall_forall in Hle. apply in_app_or in Hb as [Hb|[<-|Hb]].
+            - rewrite Forall_forall in Hsame. rewrite (Hsame b Hb). apply Hle. exact Ha.
+            - apply Hle. exact Ha.
+            - apply Hcross; [exact Hb | right; exact Ha]. }
+          split; [exact Hval|]. split; [exact Hrow|].
+          apply Forall_app. split; [apply Forall_rev; exact Hinj | constructor; assumption]. }
+        specialize (IH _ _ _ _ El Hsim2 Hnp). rewrite I2, Hrec, I1 in IH.
+        destruct (walk (record_all (record (abs_map (ps_map st)) t (denied_of d)) inj) (rev inj ++ t :: bef) rest)
+          as [gs off] eqn:Ew.
+        cbn [fst snd] in *.
+        assert (Heff : effective (d :: dsi ++ ds2)
+                       = ((t, denied_of d) :: map (fun a => (a, 0)) inj) ++ effective ds2).
+        { unfold effective. rewrite map_cons, map_app. fold (effective dsi) (effective ds2).
+          rewrite I3, Htx. reflexivity. }
+        unfold agrees in *. destruct off as [c|].
+        * destruct IH as (r & -> & [[Hc He] | (Hah & i & k & ti & tk & N1 & N2 & Hik & Hlt & S1 & S2 & Hsd & He & Hov)]).
+          -- exists r. split; [reflexivity|]. left. split; [exact Hc|].
+             rewrite Heff, He. reflexivity.
+          -- exists r. split; [reflexivity|]. right. split; [exact Hah|].
+             exists (S i), (S k), ti, tk. cbn [nth_error length firstn concat].
+             repeat split; try assumption; try lia.
+             ++ rewrite Heff, He. reflexivity.
+             ++ intros Hl. apply Hov. lia.
+        * destruct IH as (-> & He & Hl). split; [reflexivity|]. cbn [concat length]. split; [|lia].
+          rewrite Heff, He. reflexivity.
+      + (* the row is rejected *)
+        inversion H; subst ds o; clear H.
+        destruct Hstep as [(c & Hc & Hj) | (Hah & Hs & w1 & x & w2 & n & p & cc & rr & cr & sp & Ew & Ea & Hsd & Hlt)].
+        * cbn [walk]. rewrite Hj. cbn [fst snd agrees]. exists r0. split; [reflexivity|]. left. auto.
+        * subst rest.
+          destruct (walk_finds_oversale x n p cc rr cr sp w2 Ea (t :: w1) (abs_map (ps_map st)) bef Hlt)
+            as (cl & Ho & Hlen & Hcl).
+          cbn [app] in Ho, Hlen, Hcl.
+          destruct (walk (abs_map (ps_map st)) bef (t :: w1 ++ x :: w2)) as [gs off] eqn:Ew.
+          cbn [fst snd] in *. subst off. cbn [agrees].
+          exists r0. split; [reflexivity|]. right. split; [exact Hah|].
+          exists 0%nat, (S (length w1)), t, x. cbn [nth_error firstn concat effective map].
+          repeat split; try assumption; try lia.
+          -- rewrite nth_error_app2 by lia. rewrite Nat.sub_diag. reflexivity.
+          -- rewrite Ea. reflexivity.
+      + exfalso. inversion H; subst. eapply Hnp. reflexivity.
+  Qed.
+End Whole.
+
+(* ---- the groups of the walk are the input rows, each followed by the
+   cost-base adjustments generated for it ---- *)
+Definition group_ok (t : tx) (g : list (tx * Qc)) : Prop :=
+  exists dn adj, g = (t, dn) :: map (fun a => (a, 0)) adj /\ Forall (adj_row t) adj.
+
+Lemma walk_groups aft : forall hs bef,
+  Forall2 group_ok (firstn (length (fst (walk hs bef aft))) aft) (fst (walk hs bef aft)).
+Proof.
+  induction aft as [|t rest IH]; intros hs bef; cbn [walk]; [constructor|].
+  destruct (judge hs bef t rest) as [c|dn adj] eqn:Ej; [constructor|].
+  specialize (IH (record_all (record hs t dn) adj) (rev adj ++ t :: bef)).
+  destruct (walk (record_all (record hs t dn) adj) (rev adj ++ t :: bef) rest) as [gs o].
+  cbn [fst length firstn] in *. constructor; [|exact IH].
+  exists dn, adj. split; [reflexivity | eapply judge_adj; exact Ej].
+Qed.
+
+Lemma sorted_nth txs : sd_sorted txs ->
+  forall j k tj tk, nth_error txs j = Some tj -> nth_error txs k = Some tk -> (j <= k)%nat ->
+  (t_sd tj <= t_sd tk)%Z.
+Proof.
+  induction txs as [|t txs IH]; intros Hs j k tj tk Hj Hk Hle.
+  - destruct j; discriminate Hj.
+  - apply StronglySorted_inv in Hs as [Hs Hall]. destruct j as [|j]; destruct k as [|k]; cbn [nth_error] in *.
+    + inversion Hj; inversion Hk; subst. lia.
+    + inversion Hj; subst. rewrite Forall_forall in Hall. apply Hall. eapply nth_error_In. exact Hk.
+    + lia.
+    + eapply IH; eauto. lia.
+Qed.
+
+Section Top.
+  Variable regof : N -> bool.
+  Hypothesis regof_default : regof default_id = false.
+
+  Theorem run_agrees init txs ds o :
+    run exact init txs = (ds, o) ->
+    init_ok2 init -> Forall (row_ok' regof) txs -> Forall vtx txs -> sd_sorted txs ->
+    (forall p, o <> Some (SPanic p)) ->
+    agrees txs (fst (walk (spec_init init) [] txs)) (snd (walk (spec_init init) [] txs)) ds o.
+  Proof.
+    unfold run. destruct txs as [|t txs]; intros H Hi HR HV Hs Hnp.
+    - inversion H; subst. cbn. auto.
+    - destruct (init_state exact init) as [st| r0 |q] eqn:Ei.
+      + assert (Hinv : st_inv regof st /\ keys_nodup st).
+        { unfold init_state in Ei. destruct init as [i|].
+          - destruct (negb _); [discriminate|]. destruct (Hi i eq_refl) as (Hs' & Ha & _). split.
+            + eapply set_latest_inv; [exact Ei| |exact Hs'|].
+              * split; [split; cbn; [constructor | apply Qcle_refl]|].
+                split; [reflexivity|]. split; [intros k s Hk; discriminate | reflexivity].
+              * unfold af_ok. cbn. symmetry. exact regof_default.
+            + eapply set_latest_keys; [exact Ei|]. constructor.
+          - inversion Ei; subst. split; [|constructor].
+            split; [split; cbn; [constructor | apply Qcle_refl]|].
+            split; [reflexivity|]. split; [intros k s Hk; discriminate | reflexivity]. }
+        destruct Hinv as [Hinv Hk].
+        rewrite <- (init_state_abs _ _ Ei).
+        apply (loop_sim regof (t :: txs) [] st ds o H); [|exact Hnp].
+        split; [exact Hinv|]. split; [exact Hk|]. split; [exact Hs|]. split; [constructor|].
+        split; [intros b a []|]. split; [exact HV|]. split; [exact HR | constructor].
+      + exfalso. unfold init_state in Ei. destruct init as [i|]; [|discriminate].
+        destruct (negb _); [discriminate|]. eapply set_latest_no_rej; exact Ei.
+      + exfalso. inversion H; subst. eapply Hnp. reflexivity.
+  Qed.
+
+  (* the only panic of a well-formed history under exact arithmetic is the
+     effective-cent one (C05) *)
+  Lemma no_panic_from_eff_cent init txs ds o :
+    run exact init txs = (ds, o) ->
+    init_ok2 init -> Forall (row_ok' regof) txs -> Forall vtx txs ->
+    o <> Some (SPanic (PanicConstraint Site.eff_cent)) ->
+    forall p, o <> Some (SPanic p).
+  Proof.
+    intros H Hi HR HV Hn p Ho. subst o.
+    pose proof (run_panic_only_eff_cent regof regof_default init txs ds p H Hi HR HV) as Hp.
+    apply Hn. rewrite Hp. reflexivity.
+  Qed.
+
+  Definition early_report (txs : list tx) (gs : list (list (tx * Qc))) (c : offence) (ds : list delta) : Prop :=
+    exists i k ti tk,
+      nth_error txs i = Some ti /\ nth_error txs k = Some tk /\
+      (i <= length gs <= k)%nat /\ (i < k)%nat /\
+      is_sell (t_act ti) = true /\ is_sell (t_act tk) = true /\
+      (t_sd tk <= t_sd ti + 30)%Z /\
+      effective ds = concat (firstn i gs) /\
+      (length gs = k -> c = OverSale) /\
+      (forall tj, nth_error txs (length gs) = Some tj -> (t_sd tj <= t_sd ti + 30)%Z).
+
+  Theorem rejection_matches_offence init txs ds o :
+    run exact init txs = (ds, o) ->
+    init_ok2 init -> Forall (row_ok' regof) txs -> Forall vtx txs -> sd_sorted txs ->
+    o <> Some (SPanic (PanicConstraint Site.eff_cent)) ->
+    match first_offence init txs with
+    | None => o = None /\ effective ds = possible_rows init txs
+    | Some (j, c) =>
+        exists r, o = Some (SRej r) /\ listed r /\
+          ((class_of r = Some c /\ effective ds = possible_rows init txs) \/
+           (is_ahead r /\ j = length (fst (walk (spec_init init) [] txs)) /\
+            early_report txs (fst (walk (spec_init init) [] txs)) c ds))
+    end.
+  Proof.
+    intros H Hi HR HV Hs Hn.
+    pose proof (no_panic_from_eff_cent _ _ _ _ H Hi HR HV Hn) as Hnp.
+    pose proof (run_agrees _ _ _ _ H Hi HR HV Hs Hnp) as Ha.
+    unfold first_offence, possible_rows.
+    destruct (walk (spec_init init) [] txs) as [gs off]. cbn [fst snd] in *.
+    unfold agrees in Ha. destruct off as [c|]; cbn [option_map].
+    - destruct Ha as (r & -> & Hcases). exists r. split; [reflexivity|].
+      assert (Hl : listed r).
+      { eapply (run_rej_listed regof regof_default init txs ds r H); [|exact HR].
+        intros i E. destruct (Hi i E) as (A & B & _). split; assumption. }
+      split; [exact Hl|]. destruct Hcases as [Hc | (Hah & Hw)]; [left; exact Hc | right].
+      split; [exact Hah|]. split; [reflexivity|].
+      destruct Hw as (i & k & ti & tk & N1 & N2 & Hik & Hlt & S1 & S2 & Hsd & He & Hov).
+      exists i, k, ti, tk. repeat split; try assumption; try lia.
+      intros tj Hj. eapply Z.le_trans; [|exact Hsd]. eapply (sorted_nth txs Hs); eauto. lia.
+    - destruct Ha as (-> & He & _). split; [reflexivity | exact He].
+  Qed.
+
+  Theorem rejected_iff_offending init txs ds o :
+    run exact init txs = (ds, o) ->
+    init_ok2 init -> Forall (row_ok' regof) txs -> Forall vtx txs -> sd_sorted txs ->
+    o <> Some (SPanic (PanicConstraint Site.eff_cent)) ->
+    ((exists r, o = Some (SRej r) /\ listed r) <-> (exists j c, first_offence init txs = Some (j, c))).
+  Proof.
+    intros H Hi HR HV Hs Hn.
+    pose proof (rejection_matches_offence _ _ _ _ H Hi HR HV Hs Hn) as Hm.
+    destruct (first_offence init txs) as [[j c]|].
+    - destruct Hm as (r & -> & Hl & _). split; intros _; [exists j, c; reflexivity | exists r; auto].
+    - destruct Hm as (-> & _). split; [intros (r & Hr & _); discriminate Hr | intros (j & c & E); discriminate E].
+  Qed.
+
+  Theorem accepted_iff_possible init txs ds o :
+    run exact init txs = (ds, o) ->
+    init_ok2 init -> Forall (row_ok' regof) txs -> Forall vtx txs -> sd_sorted txs ->
+    o <> Some (SPanic (PanicConstraint Site.eff_cent)) ->
+    (o = None <-> first_offence init txs = None).
+  Proof.
+    intros H Hi HR HV Hs Hn.
+    pose proof (rejection_matches_offence _ _ _ _ H Hi HR HV Hs Hn) as Hm.
+    destruct (first_offence init txs) as [[j c]|].
+    - destruct Hm as (r & -> & _). split; intros E; discriminate E.
+    - destruct Hm as (-> & _). split; reflexivity.
+  Qed.
+End Top.
